@@ -706,7 +706,7 @@ pub fn run_fuzz(ctx: &mut Ctx) {
                     }
                     _ => { let mut d = data.clone(); let o = rng.below(d.len() as u64) as usize; d[o] = rng.next() as u8; (d, "byte-substitution".into()) }
                 };
-                if !kdbx3_within_budget(&m) {
+                if !frame::kdf_within_budget(&m) {
                     continue;
                 }
                 let real = frame::observe(&m, &key);
@@ -755,7 +755,7 @@ pub fn run_fuzz(ctx: &mut Ctx) {
                     6 => { let mut d = data[..12].to_vec(); d.extend(rng.bytes_below(200)); (d, "signature-then-random".into()) }
                     _ => { let mut d = data.clone(); let o = rng.below(d.len() as u64) as usize; d[o] = rng.next() as u8; (d, "byte-substitution".into()) }
                 };
-                if !kdb_within_budget(&m) {
+                if !frame::kdf_within_budget(&m) {
                     continue;
                 }
                 emit_kdb(ctx, "fuzz", &m, Some(&compk), &key, json!({"mutation": what}), vec!["format:kdb".into(), format!("mutation:{}", what)], m.len() >= 12);
